@@ -93,6 +93,7 @@ def run_property(prop: str, tier: str, repo: str, overlay=None, seed: int = 0, k
             ctx.errors.append(e)
         # rules are independent: violations reported by the rules that completed stand on their own; an anchor that another
         # rule no longer finds (often a consequence of the same change) is recorded, not allowed to hide them
+        ctx.apply_known_findings(known_path)    # a listed finding is not a reason to pass over a rule that could not be evaluated
         if ctx.errors and not ctx.violations:
             raise ctx.errors[0]
         if ctx.errors:
